@@ -12,7 +12,8 @@ RULE = ("case = (history -> index, query tree of depth <= 4 over all public quer
         "distinct = (query type tree, segment/deletion layout signature, weighting).")
 ASSUMPTIONS = [
     "documented meaning = set algebra over live documents; AndMaybe = first operand; DisjunctionMax = Or; Every(f) = documents with a term in f; "
-    "Phrase(slop s) = positions p0<p1<... with 1 <= p(i+1)-p(i) <= s; Wildcard = fnmatch; Regex = re.match at term start; TermRange over term text order",
+    "Phrase(slop s) = positions p0<p1<... with 1 <= p(i+1)-p(i) <= s; Wildcard = fnmatch; Regex = re.match at term start; TermRange over term text order; "
+    "NestedParent(P, C) = parents of live documents matching C; NestedChildren(P, W) = live children of live parents matching W (groups = parent followed by its children)",
     "FuzzyTerm cases where plain and transposition-aware edit distance disagree are left undecided here (mechanism owned by C19)",
     "texts come from a vocabulary on which the shipped analyzers equal str.split() (asserted at start)",
 ]
@@ -41,10 +42,10 @@ def gen_weighting(rng):
     return "Function(0)", scoring.FunctionWeighting(lambda searcher, fieldname, text, matcher: 0.0)
 
 
-def check_query(ctx, rng, built, s, q, wb, wname):
+def check_query(ctx, rng, built, s, q, wb, wname, exp=None):
     from vf import model
     try:
-        exp = model.expected_keys(q, built.live)
+        exp = exp if exp is not None else model.expected_keys(q, built.live)
     except model.Undecided:
         ctx.count("c01.undecided")
         return None
@@ -130,7 +131,8 @@ def run(ctx):
     for idx in ctx.cases(quick=45, thorough=400):
         rng = ctx.rng(idx)
         ctx.reseed_global(idx)
-        h = model.gen_history(rng, ndocs=(1, 45), boosts=rng.random() < 0.3)
+        grouped = rng.random() < 0.12
+        h = model.gen_group_history(rng) if grouped else model.gen_history(rng, ndocs=(1, 45), boosts=rng.random() < 0.3)
         wname, wobj = gen_weighting(rng)
         wb = {"history": {"commits": [len(c) for c in h["commits"]], "deletes": h["deletes"],
                           "blocklimit": h["blocklimit"], "storage": h["storage"]}, "case_idx": idx, "weighting": wname}
@@ -145,8 +147,22 @@ def run(ctx):
                 if s.doc_count() != len(built.live):
                     ctx.fail("c01.doc_count", "doc_count", wb, "doc_count=%d live=%d" % (s.doc_count(), len(built.live)))
                 for _ in range(14):
-                    q = model.gen_query(rng, depth=rng.choice([1, 2, 3, 3, 4]), scoring=rng.random() < 0.4)
-                    exp = check_query(ctx, rng, built, s, q, wb, wname)
+                    if grouped and rng.random() < 0.7:
+                        from whoosh import query
+                        q = model.gen_nested_query(rng)
+                        pre = model.nested_expected(q, h, built.live)
+                        r = rng.random()
+                        if r < 0.25:
+                            t = query.Term("t", model.zipf_choice(rng, model.VOCAB))
+                            q, pre = query.And([q, t]), pre & model.expected_keys(t, built.live)
+                        elif r < 0.4:
+                            t = query.Term("t", model.zipf_choice(rng, model.VOCAB))
+                            q, pre = query.Or([q, t]), pre | model.expected_keys(t, built.live)
+                        ctx.count("c01.nested_queries")
+                        exp = check_query(ctx, rng, built, s, q, wb, wname, exp=pre)
+                    else:
+                        q = model.gen_query(rng, depth=rng.choice([1, 2, 3, 3, 4]), scoring=rng.random() < 0.4)
+                        exp = check_query(ctx, rng, built, s, q, wb, wname)
                     if exp is None:
                         continue
                     nontrivial = 0 < len(exp) < len(built.live)
